@@ -48,7 +48,7 @@ var CMSMutationClasses = []string{
 	"content_edit", "content_replace", "content_remove", "content_add",
 	"etype_change", "outer_oid_change", "attr_contenttype_change",
 	"certs_drop", "certs_replace", "certs_add",
-	"issuer_change", "serial_change", "serial_sign_edit", "digest_attr_rewrite", "digest_attr_rewrite_and_content",
+	"issuer_change", "serial_change", "serial_sign_edit", "unsigned_attrs_shadow_signed", "digest_attr_rewrite", "digest_attr_rewrite_and_content",
 	"sig_flip", "sig_by_other_key", "digestalg_change", "sigalg_change", "null_params_toggle",
 	"second_signer", "outer_strip", "outer_add", "attrs_retag_set", "attrs_remove_all", "attrs_empty",
 	"foreign_content_and_signer", "foreign_content_and_signer", "issuer_string_retag",
@@ -324,6 +324,26 @@ func MutateCMS(t *rapid.T, blob []byte, env MutEnv) ([]byte, string) {
 			}
 			sd.EContent0.Children = []*der.Node{der.Octets(env.NewContent)}
 			sd.EContent0.Opaque, sd.EContent0.Content = false, nil
+		}
+	case "unsigned_attrs_shadow_signed":
+		// needs no key: other content, and unauthenticated attributes [1] that repeat the signed attribute types with
+		// values fitting the new content (the signed ones, and the signature over them, stay as they are)
+		if sd.EContent0 == nil || s.Attrs == nil || s.Sig == nil {
+			return nil, na
+		}
+		sd.EContent0.Children = []*der.Node{der.Octets(env.NewContent)}
+		sd.EContent0.Opaque, sd.EContent0.Content = false, nil
+		d := sha256.Sum256(env.NewContent)
+		un := []*der.Node{cms.Attr(cms.OIDMessageDigest, der.Octets(d[:]))}
+		if rapid.Bool().Draw(t, "with_content_type") && sd.EType != nil {
+			un = append(un, cms.Attr(cms.OIDContentType, sd.EType.Clone()))
+		}
+		unNode := &der.Node{Class: der.ClassContext, Constructed: true, Tag: 1, Children: un}
+		if s.UnAttrs != nil {
+			s.UnAttrs.Children = append(s.UnAttrs.Children, un...)
+			s.UnAttrs.Opaque, s.UnAttrs.Content = false, nil
+		} else {
+			s.Node.Children = append(s.Node.Children, unNode)
 		}
 	case "sig_flip":
 		if s.Sig == nil || len(s.Sig.Content) == 0 {
